@@ -262,8 +262,10 @@ type driver struct {
 	root string
 	seq  atomic.Int64
 
-	retries atomic.Int64
-	skipped atomic.Int64
+	retries    atomic.Int64
+	envRetries atomic.Int64
+	envFailed  atomic.Int64
+	skipped    atomic.Int64
 
 	mu           sync.Mutex
 	controls     map[string][2]int // per command: ok, failed
@@ -282,12 +284,21 @@ func (d *driver) run(c Case) result {
 		return runInWorker(d.root, d.nextID("w"), c)
 	}
 	res := runCase(d.root, d.nextID("c"), c)
+	// the overloaded machine refused a process / starved the pipe readers: not a property of the code; try again
+	for attempt := 1; attempt <= 3 && res.EnvFailure; attempt++ {
+		time.Sleep(time.Duration(attempt) * 700 * time.Millisecond)
+		d.r.Eval(1)
+		d.envRetries.Add(1)
+		res = runCase(d.root, d.nextID("c"), c)
+	}
 	// "complete stderr, then killed by the context": when the machine is so loaded that the context ended before the
 	// plugin had finished printing, the case was not realised; it is run again with the context's delay doubled
 	// (a real context.WithTimeout / cancel every time; the 20 s bound is applied to every attempt)
 	if isErrThenSleep(c.Timing) && isCtxLimited(c.Ctx) {
 		kind, delay := ctxSpec(c.Ctx)
-		for attempt := 1; attempt <= 6 && res.Setup == "" && res.Returned && !res.Printed; attempt++ {
+		// ... likewise when the call came back only seconds after its context had ended although nothing held the
+		// pipes: the host's wall-clock pipe wait may have cut the starved readers short (slowReturn, see judge)
+		for attempt := 1; attempt <= 6 && res.Setup == "" && res.Returned && (!res.Printed || slowReturn(res)); attempt++ {
 			delay *= 2
 			c2 := c
 			c2.Ctx = fmt.Sprintf("%s-%dms", kind, delay.Milliseconds())
@@ -300,6 +311,12 @@ func (d *driver) run(c Case) result {
 }
 
 func (d *driver) record(c Case, res result, replaying bool) {
+	if res.EnvFailure {
+		// still failing for the machine's reasons after the retries: nothing to judge
+		d.envFailed.Add(1)
+		d.r.Outcome("recorded:environment-failure (no process/memory/descriptor, or pipe readers starved) - not judged")
+		return
+	}
 	v := judge(c, res)
 	if v.Infra != "" {
 		d.r.Infra("%s", v.Infra)
@@ -458,15 +475,22 @@ func main() {
 
 	// timing cases: started first, all concurrently (they sleep), collected at the end
 	var twg sync.WaitGroup
-	for _, c := range sp.timing {
-		c := c
-		twg.Add(1)
-		go func() {
-			defer twg.Done()
-			defer onPanic(c)()
-			d.record(c, d.run(c), false)
-		}()
-	}
+	tsem := make(chan struct{}, 160) // at most 160 of them (<= 320 sleeping processes) at a time
+	twg.Add(1)
+	go func() {
+		defer twg.Done()
+		for _, c := range sp.timing {
+			c := c
+			tsem <- struct{}{}
+			twg.Add(1)
+			go func() {
+				defer twg.Done()
+				defer func() { <-tsem }()
+				defer onPanic(c)()
+				d.record(c, d.run(c), false)
+			}()
+		}
+	}()
 	// let the contexts of the timing cases end before the CPU-heavy product starts (not an oracle)
 	time.Sleep(1500 * time.Millisecond)
 
@@ -557,6 +581,10 @@ func main() {
 		r.Capped(fmt.Sprintf("internal deadline reached on a loaded machine: all %d timing/context cases and %d of the %d cheap/oversize/overlap cases were run, %d skipped", len(sp.timing), len(sp.cheap)+len(sp.big)+len(ov)-int(n), len(sp.cheap)+len(sp.big)+len(ov), n))
 	}
 	r.Extra["context_kill_cases_rerun_with_doubled_delay(informational)"] = d.retries.Load()
+	r.Extra["calls_rerun_after_environment_failure(informational)"] = d.envRetries.Load()
+	if n := d.envFailed.Load(); n > 0 {
+		r.Capped(fmt.Sprintf("%d cases could not be judged: the machine had no process/memory/descriptor left or starved the pipe readers, also on 3 retries", n))
+	}
 
 	// positive controls
 	var cmds []string
